@@ -43,7 +43,15 @@ func (w *Worker) isRepoPkg(p *ssa.Package) bool {
 var sourceAllowed = []string{
 	"encoding/binary", "cosmossdk.io/math", "github.com/cosmos/cosmos-sdk/types/query",
 	"github.com/ethereum/go-ethereum/common", "strings", "bytes", "unicode", "unicode/utf8", "sort",
-	"slices", "math/bits", "strconv", "errors", "math", "cmp", "internal/bytealg", "internal/stringslite",
+	"slices", "math/bits", "strconv", "errors", "math", "cmp", "internal/bytealg", "internal/stringslite", "time", "encoding/hex",
+}
+
+var sourceDenied = []string{
+	"crypto", "github.com/ethereum/go-ethereum/crypto", "github.com/btcsuite", "github.com/decred", "golang.org/x/crypto",
+	"reflect", "unsafe", "sync", "runtime", "os", "io", "net", "syscall", "time", "math/rand", "fmt", "log", "cosmossdk.io/log",
+	"github.com/cosmos/gogoproto", "google.golang.org", "github.com/cosmos/cosmos-sdk/codec", "github.com/cosmos/cosmos-sdk/store",
+	"cosmossdk.io/store", "github.com/cosmos/cosmos-db", "github.com/cosmos/iavl", "github.com/cometbft", "math/big", "encoding/json",
+	"github.com/cosmos/cosmos-sdk/baseapp", "github.com/cosmos/cosmos-sdk/x", "github.com/cosmos/cosmos-sdk/types/bech32", "github.com/cosmos/btcutil",
 }
 
 var sourceAllowedFuncs = []string{
@@ -75,7 +83,15 @@ func (w *Worker) allowedSource(fn *ssa.Function) bool {
 			return true
 		}
 	}
-	return false
+	// anything else that has a Go body is executed from its own SSA as well, except packages whose
+	// behaviour must come from an explicit model (cryptography, encoding registries, I/O, reflection,
+	// concurrency): reaching those without a model is reported as inconclusive
+	for _, d := range sourceDenied {
+		if path == d || strings.HasPrefix(path, d+"/") {
+			return false
+		}
+	}
+	return true
 }
 
 // ensureInit runs the package initialiser of a repo package (leniently) the first time one of its
